@@ -426,6 +426,11 @@ impl CommandBuilder<'_> {
 
         let mut command = Command::new(entry_point);
 
+        if self.options.replace.is_some() && self.extra_args.is_empty() {
+            // Nothing to substitute: with -I, empty input runs nothing.
+            return Ok(CommandResult::Success);
+        }
+
         if let Some(replace_str) = &self.options.replace {
             // Replace all occurrences in initial args with the extra arg,
             // Thanks to `MaxArgsCommandSizeLimiter`, we only process a single extra arg here.
